@@ -266,6 +266,14 @@ func C11(c *core.Ctx) {
 		return
 	}
 	c11sched(c)
+	if c.HasViolation() || c.Expired() {
+		return
+	}
+	dev := 1
+	if c.Thorough() {
+		dev = 2
+	}
+	wsScenarios(c, "C11", dev)
 }
 
 // c11victim: a rejected CONNECT that names somebody else's client identifier
